@@ -152,6 +152,10 @@ def combos(chk, rng):
         ok = check_rows(chk, m['op'], got, want, ctx, m['label'])
         if ok:
             # row r of the output depends only on row r of the input: the middle row alone / in another batch
+            keep = np.array(got, copy=True)
+            again = pre(traces[::-1].copy())                     # a second batch of the same shape and dtype
+            if not np.array_equal(np.asarray(got), keep) or not np.array_equal(np.asarray(again)[::-1], keep):
+                chk.violation(f'{m["op"]}:the output of a call is not altered by later calls (row r depends on row r of ITS batch only)', dict(ctx, property='C18'), f'{m["label"]}: an earlier output changed after a later call on a batch of the same shape')
             alone = pre(traces[1:2])
             other = pre(np.concatenate([traces[2:3], traces[1:2], traces[0:1], traces[0:1]]))
             if not np.array_equal(alone[0], np.asarray(got)[1]) or not np.array_equal(other[1], np.asarray(got)[1]):
